@@ -109,7 +109,7 @@ class Built:
   def signature(self):
     """Signature as the caller sees it (without self / cls)."""
     sig = inspect.signature(self.original)
-    if self.shape['kind'] != 'function':
+    if self.shape['kind'] != 'function':     # drop self / cls
       params = list(sig.parameters.values())[1:]
       sig = sig.replace(parameters=params)
     return sig
@@ -196,6 +196,27 @@ def build(shape, gin, lists_on='target'):
     selector = (gin_module + '.' if gin_module else modname + '.') + name
     return Built(shape, mod, original, cfg, target, selector, configurable_obj=cfg)
 
+  if kind in ('callobj', 'boundmethod'):
+    # a callable instance (its class defines __call__) or a bound method of an instance, handed
+    # to Gin as it is: `self` is already bound, the caller's first argument is the first parameter
+    fname = '__call__' if kind == 'callobj' else 'run'
+    src = (f'class {name}Type:\n  def {fname}(self, {signature_source(shape)}):\n'
+           f'    return {record_source(shape)}\n')
+    exec(compile(src, f'<{modname}>', 'exec'), mod.__dict__)  # pylint: disable=exec-used
+    inst = mod.__dict__[name + 'Type']()
+    target = inst if kind == 'callobj' else inst.run
+    kw = dict(reg_kwargs)
+    if gin_module is None:
+      kw['module'] = modname
+    if api == 'register':
+      gin.register(name, **kw)(target)
+      cfg = gin.get_configurable(target)
+    else:
+      cfg = gin.external_configurable(target, name=name, **kw)
+    original = getattr(type(inst), fname)
+    selector = (gin_module + '.' if gin_module else modname + '.') + name
+    return Built(shape, mod, original, cfg, target, selector, configurable_obj=cfg)
+
   if kind in ('class_init', 'class_new'):
     if kind == 'class_init':
       body = (f'  def __init__(self, {signature_source(shape)}):\n'
@@ -265,6 +286,14 @@ def build(shape, gin, lists_on='target'):
     else:
       gin.register(**host_kwargs)(cls)
       cfg_cls = gin.get_configurable(cls)
+    if shape.get('later_sibling') and meth_api == 'register' and not lists:
+      # a second class of the same module, defined and registered afterwards, with a registered
+      # method of the same name (two model classes that both have `call`)
+      src2 = (f'@gin.register\nclass {host}Sibling:\n'
+              f'  @gin.register\n'
+              f'  def {meth}(self, *args, **kwargs):\n'
+              f'    return ("sibling", args, kwargs)\n')
+      exec(compile(src2, f'<{modname}>', 'exec'), mod.__dict__)  # pylint: disable=exec-used
     if meth_api == 'register':
       selector = (gin_module + '.' if gin_module else modname + '.') + host + '.' + name
     else:
